@@ -228,6 +228,53 @@ func ruleEveryMapEntryEnumerated(c *Ctx, rule string) {
 			}
 		}
 	}
+	// the same loop written with a map iterator: for it.Next() { ... yield(it.Key(), it.Value()) ... }
+	for _, fn := range c.P.Funcs {
+		if !c.P.InPkg(fn) {
+			continue
+		}
+		var yields []*ssa.Call
+		core.EachInstr(fn, func(i ssa.Instruction) {
+			call, ok := i.(*ssa.Call)
+			if !ok || call.Call.IsInvoke() || call.Call.StaticCallee() != nil {
+				return
+			}
+			for _, src := range append(traceSources(call.Call.Value), call.Call.Value) {
+				switch src.(type) {
+				case *ssa.FreeVar, *ssa.Parameter:
+					if sig := call.Call.Signature(); sig.Results().Len() == 1 && isBoolType(sig.Results().At(0).Type()) && sig.Params().Len() == 2 {
+						yields = append(yields, call)
+					}
+				}
+			}
+		})
+		if len(yields) == 0 {
+			continue
+		}
+		for _, h := range fn.Blocks {
+			ifi, ok := h.Instrs[len(h.Instrs)-1].(*ssa.If)
+			if !ok {
+				continue
+			}
+			nc, ok := ifi.Cond.(*ssa.Call)
+			if !ok || core.CalleeKey(&nc.Call) != "reflect.MapIter.Next" {
+				continue
+			}
+			through := map[*ssa.BasicBlock]bool{}
+			inside := false
+			for _, y := range yields {
+				if inLoopOf(h, y.Block()) {
+					through[y.Block()] = true
+					inside = true
+				}
+			}
+			if !inside {
+				continue
+			}
+			n++
+			c.R.Check(mustPass(h.Succs[0], through, map[*ssa.BasicBlock]bool{h: true}), rule, core.FuncName(fn)+":no-entry-passed-over", c.pos(ifi), "the loop goes on to the next entry only after yielding the current one", "the loop over a map instance can go on to the next entry without yielding the current one (a `continue` before the yield): entries so passed over are hidden from additionalProperties, patternProperties, propertyNames and unevaluatedProperties, while `required`, the property count and the lookup of a single property still see them")
+		}
+	}
 	c.R.Floor(rule, "yields inside a loop over a reflect map", n, 1)
 }
 
